@@ -591,6 +591,9 @@ def check(ctx):
     ctx.count("R10:device members evaluated with out-of-list states", m10_)
     ctx.floor("R10", "facades inspected with out-of-list device states", n10_, 10)
     ctx.floor("R10", "device members evaluated with out-of-list states", m10_, 500)
+    ctx.rule("R11", "temperatures are numbers for any block contents: unit item and temperature item built by their constructors on real bytes - for words across the whole 16-bit range (0 and 65535 included) and both units the item presents a number (raw/18 or (raw+320)/10): a sentinel such as None for an all-ones word breaks every rendering and comparison the heater makes (C14.R8 borrowed)")
+    from .c14 import temperature_on_real_bytes as _torb
+    _torb(ctx.borrowed("R11", "C14", key_contains="::presents::"), repo, "R8")
     ctx.rule("R8", "heater totality: with the unit item reading 'C', 'F' or 'Unknown' (any out-of-label byte) and every presence pattern AND every value of the heating / cooling flag items (both set included: two independent bits of a block), every read-only member of GeckoWaterHeater evaluates without raising")
     from .c14 import build_heater
     hcls = repo.cls("GeckoWaterHeater")
